@@ -292,7 +292,18 @@ struct Coord {
   // synchronous call with a generous timeout; timeout => inconclusive
   bool hang_is_verdict = false; string case_text, prop;
   static string syscall_of(pid_t pid) { char p[64]; snprintf(p, sizeof p, "/proc/%d/syscall", (int)pid); FILE *f = fopen(p, "r"); if (!f) return ""; char b[256] = ""; if (!fgets(b, sizeof b, f)) b[0] = 0; fclose(f); return b; }
+  static double cpu_seconds_of(pid_t pid) {
+    char pth[64]; snprintf(pth, sizeof pth, "/proc/%d/stat", (int)pid);
+    FILE *f = fopen(pth, "r"); if (!f) return -1;
+    char buf[1024]; size_t n = fread(buf, 1, sizeof buf - 1, f); fclose(f); buf[n] = 0;
+    const char *rp = strrchr(buf, ')'); if (!rp) return -1;
+    unsigned long ut = 0, stt = 0; int k = 0; const char *q = rp + 1;
+    // fields after the command: state(3) ... utime is field 14, stime field 15
+    for (int field = 3; *q && field <= 15; field++) { while (*q == ' ') q++; if (field == 14) ut = strtoul(q, NULL, 10); if (field == 15) stt = strtoul(q, NULL, 10); while (*q && *q != ' ') q++; k++; }
+    (void)k; return (double)(ut + stt) / (double)sysconf(_SC_CLK_TCK);
+  }
   string call(int i, const string &line, int timeout_ms = 10000) {
+    double cpu0 = cpu_seconds_of(ws[(size_t)i].pid);
     send(i, line);
     string r;
     if (!recv(i, r, hang_is_verdict ? 4000 : timeout_ms)) {
@@ -306,6 +317,14 @@ struct Coord {
           shutdown();
           _exit(1);
         }
+      }
+      // a worker that has been BURNING CPU since the command was sent (not waiting for anything) is in a loop that does not end: the
+      // CPU time of the worker process, not the wall clock, decides - a starved worker accumulates none
+      double cpu1 = cpu_seconds_of(ws[(size_t)i].pid);
+      if (cpu0 >= 0 && cpu1 >= 0 && cpu1 - cpu0 >= 3.0) {
+        fail("call-does-not-return", "'" + line + "' did not return: the worker process spent " + std::to_string(cpu1 - cpu0) + " s of CPU time inside the call (calls of this kind take microseconds)");
+        kill(ws[(size_t)i].pid, SIGKILL); ws[(size_t)i].dead = true; int st; waitpid(ws[(size_t)i].pid, &st, 0);
+        return "TIMEOUT";
       }
       out.inconclusive = true; vl::stats().count("inconclusive_worker_timeout"); return "TIMEOUT";
     }
